@@ -256,10 +256,14 @@ Definition copt := (list handler * list (list N))%type.
 Inductive gnode :=
 | GLambda (uid : ukey) (key : N) (inf : info) (natives : N) (fails : bool)
 | GPass (uid : ukey) (key : N)
-| GSub (uid : ukey) (key : N) (inf : info) (stages : list (list gnode)).
+| GSub (uid : ukey) (key : N) (inf : info) (stages : list (list gnode))
+| GTools (uid : ukey) (key : N) (inf : info) (calls : list (ukey * info * N * bool)).
+    (* a ToolsNode and the tool calls of its input message: per call its unit, the run info
+       of the tool, the paradigms the tool implements (bit 0 InvokableRun, 1 StreamableRun)
+       and whether the call fails *)
 
 Definition gnode_key (n : gnode) : N :=
-  match n with GLambda _ k _ _ _ => k | GPass _ k => k | GSub _ k _ _ => k end.
+  match n with GLambda _ k _ _ _ => k | GPass _ k => k | GSub _ k _ _ => k | GTools _ k _ _ => k end.
 Definition gnode_is_sub (n : gnode) : bool := match n with GSub _ _ _ _ => true | _ => false end.
 
 (* newRunnablePacker: the native paradigm behind r.i (invoke mode) and r.t (transform mode):
@@ -339,6 +343,15 @@ Definition graph_body (is_stream : bool) (g : ukey) (ok : bool) (rs : list (list
     ([OOn g (graph_start is_stream)] ++ fst b ++
      [OOn g (if snd b then TError else graph_end is_stream)], snd b).
 
+(* compose/tool_node.go runToolCallTaskByInvoke / ByStream: ReuseHandlers with the tool's run
+   info on the ToolsNode's context, then the tool's runnable packer (callbacks injected when
+   the tool does not fire them itself) *)
+Definition call_fails (c : ukey * info * N * bool) : bool := snd c.
+Definition call_ops (is_stream : bool) (tn : ukey) (c : ukey * info * N * bool) : list op :=
+  let '(cu, cinf, natives, fails) := c in
+  let p := pick_native is_stream natives in
+  [OReuse tn cu cinf; OOn cu (start_timing_of p); OOn cu (if fails then TError else end_timing_of p)].
+
 (* taskManager.executor for one node: initNodeCallbacks, then the node's runnable *)
 Fixpoint node_ops (is_stream : bool) (parent : ukey) (opts : list copt) (n : gnode) {struct n}
   : list op * bool :=
@@ -354,6 +367,14 @@ Fixpoint node_ops (is_stream : bool) (parent : ukey) (opts : list copt) (n : gno
       let r := graph_body is_stream uid (graph_ok stages sopts)
                           (map (map (node_ops is_stream uid sopts)) stages) in
       (OAppend (Some parent) uid inf (designated key opts) :: fst r, snd r)
+  | GTools uid key inf calls =>
+      (* ToolsNode implements Invoke and Stream; all tool calls run (in parallel), then the
+         first failed one fails the node *)
+      let p := pick_native is_stream 3 in
+      let failed := existsb call_fails calls in
+      (OAppend (Some parent) uid inf (designated key opts) :: OOn uid (start_timing_of p) ::
+       flat_map (call_ops is_stream uid) calls ++
+       [OOn uid (if failed then TError else end_timing_of p)], failed)
   end.
 
 (* a compiled top-level graph called with [opts] on a context without manager *)
